@@ -924,4 +924,89 @@ SEEDS = [
          old="""        iter.i0 = iter.find_next_not_empty_chunk();
 """,
          new="""""", note='the iterator starts at place 0 without consuming its bit: the root list is scanned twice'),
+
+    # --- clause probes written in the last round: one seed per clause of section 4 that had none -------------------------
+    dict(id='PB1-seg-insert-stores-other-mask', props=['C03'], file='src/seg/tree.rs',
+         old="""        let entity = Entity::new(val, mask);""",
+         new="""        let entity = Entity::new(val, mask | 1);""", note='the copies carry a mask that is not the mask whose bits select the lists'),
+    dict(id='PB2-seg-iter-mask-field-differs', props=['C03'], file='src/seg/tree.rs',
+         old="""            mask,
+            bit_iter: BitIter::new(mask),""",
+         new="""            mask: mask | 1,
+            bit_iter: BitIter::new(mask),""", note='de-duplication mask differs from the mask that drives the scan'),
+    dict(id='PB3-seg-dedupe-against-position', props=['C03'], file='src/seg/tree.rs',
+         old="""                if first_index == self.i0 {""",
+         new="""                if first_index == self.i1 {""", note='first common place compared with the position instead of the place'),
+    dict(id='PB4-seg-query-time-not-passed', props=['C03', 'C16'], file='src/seg/tree.rs',
+         old="""        SegExpTreeIterator::new(mask, time, self)""",
+         new="""        let _ = time;
+        SegExpTreeIterator::new(mask, E::max_expiration(), self)""", note='the query does not scan with its own time'),
+    dict(id='PB5-chunk-insert-twice', props=['C03', 'C16'], file='src/seg/chunk.rs',
+         old="""        self.buffer.push(entity);""",
+         new="""        self.buffer.push(entity.clone());
+        self.buffer.push(entity);""", count=1, note='two copies per selected list'),
+    dict(id='PB6-map-is-empty-inverted', props=['C04'], file='src/map/tree.rs',
+         old="""        self.root == EMPTY_REF
+    }""",
+         new="""        self.root != EMPTY_REF
+    }""", note='emptiness inverted'),
+    dict(id='PB7-set-pool-put-back-conditional', props=['C11'], file='src/set/pool.rs',
+         old="""        self.unused.push(index)""",
+         new="""        if index != 0 { self.unused.push(index) }""", note='release function that does not always release'),
+    dict(id='PB8-key-search-recolours', props=['C18', 'C02'], file='src/key/tree.rs',
+         old="""    fn search_value(&mut self, time: E, key: K) -> Option<V> {
+        let mut index = self.expire_root(time);
+""",
+         new="""    fn search_value(&mut self, time: E, key: K) -> Option<V> {
+        let mut index = self.expire_root(time);
+        if index != EMPTY_REF {
+            self.node_mut(index).color = Color::Black;
+        }
+""", note='a searcher writes the arena directly'),
+    dict(id='PB9-keylist-clear-keeps-buffer', props=['C12'], file='src/key/list.rs',
+         old="""        self.buffer.clear();""",
+         new="""        self.buffer.truncate(1);""", note='clear leaves an entry behind'),
+    dict(id='PB10-map-value-by-index-mut-other-slot', props=['C08'], file='src/map/tree.rs',
+         old="""    fn value_by_index_mut(&mut self, index: u32) -> &mut V {
+        &mut self.node_mut(index).entity.val""",
+         new="""    fn value_by_index_mut(&mut self, index: u32) -> &mut V {
+        let index = self.root.max(index);
+        &mut self.node_mut(index).entity.val""", note='writes through a handle land in another slot'),
+
+    dict(id='PB11-set-successor-from-left-subtree', props=['C05'], file='src/set/tree.rs',
+         old="""            let successor_index = self.find_left_minimum(nd_right);""",
+         new="""            let successor_index = self.find_left_minimum(nd_left);""", note='the entry moved up is not the in-order successor'),
+    dict(id='PB12-chunk-is-empty-off-by-one', props=['C03', 'C16'], file='src/seg/chunk.rs',
+         old="""        self.buffer.is_empty()""",
+         new="""        self.buffer.len() <= 1""", note='a list with one entry counts as empty and is skipped'),
+    dict(id='PB13-map-find-left-minimum-walks-right', props=['C04'], file='src/map/tree.rs',
+         old="""        while self.node(i).left != EMPTY_REF {
+            i = self.node(i).left;
+        }
+        i""",
+         new="""        while self.node(i).right != EMPTY_REF {
+            i = self.node(i).right;
+        }
+        i""", note='the successor search walks the wrong way'),
+
+    dict(id='PB14-map-replace-child-no-parent-write', props=['C02'], file='src/map/tree.rs',
+         old="""        self.node_mut(new_child).parent = parent;
+        if parent == EMPTY_REF {""",
+         new="""        if parent == EMPTY_REF {""", note='the moved-up child keeps its old parent link'),
+    dict(id='PB15-map-rotate-right-no-parent-of-node', props=['C02'], file='src/map/tree.rs',
+         old="""        node.left = lt_right;
+        node.parent = lt_index;""",
+         new="""        node.left = lt_right;""", note='the rotated node keeps its old parent link'),
+    dict(id='PB16-map-insert-as-left-links-right', props=['C04'], file='src/map/tree.rs',
+         old="""        parent.left = new_index;""",
+         new="""        parent.right = new_index;""", note='a key below its parent is linked as right child'),
+    dict(id='PB17-map-delete-successor-payload-not-moved', props=['C04'], file='src/map/tree.rs',
+         old="""            self.node_mut(index).entity = entity;
+""",
+         new="""            let _ = entity;
+""", note='two-children removal frees the successor without moving its entry: the removed key stays, the successor key is lost'),
+    dict(id='PB19-map-nil-not-unlinked', props=['C02'], file='src/map/tree.rs',
+         old="""                self.fix_red_black_properties_after_delete(NIL_INDEX);
+                self.fix_parents_nil_child();""",
+         new="""                self.fix_red_black_properties_after_delete(NIL_INDEX);""", note='the sentinel stays linked'),
 ]
